@@ -26,10 +26,11 @@ it consumed all that remained, and by less than what one token of the in-asset m
 import OsmoVerif.Props.C03
 import OsmoVerif.Proofs.CLLimit5
 import OsmoVerif.Proofs.CLLimit6
+import OsmoVerif.Proofs.CLLimit7
 
 namespace OsmoVerif.Props.C03Limit
 open OsmoVerif.Num OsmoVerif.Spec OsmoVerif.Gen OsmoVerif.CL OsmoVerif.CLPool OsmoVerif.CLBook OsmoVerif.CLSolv
-open OsmoVerif.CLLimit
+open OsmoVerif.CLLimit OsmoVerif.CLIdeal
 
 /-! ## 0. the definitions, unfolded -/
 
@@ -316,6 +317,24 @@ theorem price_passes_limit_by_less_than_one_token {p : Pool} (hinv : Inv p) (hsp
       sqrtPriceLimit pl zfo = some limit ∧ Path p.sqrtPrice tr r.pool.sqrtPrice ∧ ∀ e ∈ tr, PassBound zfo limit e := by
   obtain ⟨limit, tr, st', hl, _, hrun, hpath, _, _, _, hgood, _⟩ := swap_any_limit_of_inv hinv hspf h
   exact ⟨limit, tr, hl, hpath, run_pass_bound (spfOK_lt hspf).2 hrun hgood⟩
+
+/-- exact-out, ONE-FOR-ZERO (`GetNextSqrtPriceFromAmount0OutRoundingUp` rounds the next sqrt price UP, i.e. in swap direction).
+`…_partial`: NOT decided whether a step can end beyond the limit at all (no instance in 1.3·10^5 random trials of the step
+function; the missing piece is `nextSqrtPriceAmount0Out sp l rem ≤ target` whenever `rem·10^18 < CalcAmount0Delta(target, sp)`
+rounded down — three nested floors against three nested ceilings).  Proved: if a step does end beyond the limit, then by rounding
+only — the exact token0 amount between the limit and the end price is below
+`priceSlackOut0 = 10^36·(10^36 + liq·10^18 + next)/(sp·next)/10^18` raw units (≤ 1 + liq·10^-24 at sqrt prices ≥ 10^-6) — and
+(`price_limit_respected`) at most one raw unit of the request is left, so it is the last step. -/
+theorem exact_out_one_for_zero_passes_limit_by_rounding_only_partial {p : Pool} (hinv : Inv p) (hspf : SpfOK p.spf)
+    {pl specified : Int} {r : SwapOut}
+    (h : computeSwap false false p.spf pl ⟨p.sqrtPrice, p.tick, p.liquidity⟩ (tickList p) specified = some r) :
+    ∃ (limit : Int) (tr : List StepRec),
+      sqrtPriceLimit pl false = some limit ∧ Path p.sqrtPrice tr r.pool.sqrtPrice ∧
+      ∀ e ∈ tr, limit < e.res.sqrtPriceNext →
+        exact0 e.st.pool.liquidity limit e.res.sqrtPriceNext <
+          priceSlackOut0 e.st.pool.liquidity e.st.pool.sqrtPrice e.res.sqrtPriceNext := by
+  obtain ⟨limit, tr, st', hl, _, hrun, hpath, _, _, _, hgood, _⟩ := swap_any_limit_of_inv hinv hspf h
+  exact ⟨limit, tr, hl, hpath, run_pass_bound_out_ofz hrun hgood⟩
 
 /-! ## 4. estimate = execute for equal limits; invalid limits -/
 
